@@ -351,7 +351,12 @@ func genFedOp(s *fedSpec, W *core.Tape, withDefer, mutation bool) *fedOp {
 			case 1:
 				arg = fmt.Sprintf("(first: %d)", W.Intn(t.N+1))
 			case 2:
-				arg = fmt.Sprintf("(first: $%s)", g.newVar("Int", W.Intn(t.N+1)))
+				v := g.newVar("Int", W.Intn(t.N+1))
+				arg = fmt.Sprintf("(first: $%s)", v)
+				if W.Prob(0.3) {
+					// an optional variable the client leaves out: the argument is absent (no limit)
+					delete(g.varVals, v)
+				}
 			}
 		}
 		alias := ""
